@@ -860,7 +860,7 @@ def run(ctx: core.Check, cases=None):
                              + (f": D = {impl['D'][1]}" if impl["D"][0] == "ok" else ""))
             continue
         if impl["D"][0] != "ok" or impl["band"][0] != "ok" or impl["pbox"][0] != "ok":
-            ctx.fail(feat(c, "KS_bounds", "supported-level-raises", n=n), {**cj(c), "impl": {k: _js(v)[:2] for k, v in impl.items() if k != "n"}},
+            ctx.fail(feat(c, "KS_bounds", "supported-level-raises", n=n), {**cj(c), "impl": {k: _js(impl[k])[:2] for k in ("D", "band", "pbox")}},
                      f"supported level alpha={a} raised: D={impl['D'][:2]} band={impl['band'][:2]} pbox={impl['pbox'][:2]}")
             continue
         D = impl["D"][1]
